@@ -5,8 +5,8 @@ use educe::Educe;
 use core::cmp::Ordering;
 #[derive(Educe)]
 #[educe(PartialEq)]
-pub enum T { C, A(), Zed, Unit(A<0>, #[educe(PartialEq = false)] A<0>) }
-pub fn values() -> Vec<T> { vec![T::C, T::A(), T::Zed, T::Unit(A(0), A(0)), T::Unit(A(0), A(1)), T::Unit(A(0), A(7)), T::Unit(A(1), A(0)), T::Unit(A(1), A(1)), T::Unit(A(1), A(7)), T::Unit(A(7), A(0)), T::Unit(A(7), A(1)), T::Unit(A(7), A(7))] }
-pub fn show(x: &T) -> String { #[allow(unused_variables)] match x { T::C => format!("C()"), T::A() => format!("A()"), T::Zed => format!("Zed()"), T::Unit(p0, p1) => format!("Unit({},{})", sv(p0), sv(p1)) } }
-pub fn o_eq(a: &T, b: &T) -> bool { match (a, b) { (T::C, T::C) => true, (T::A(), T::A()) => true, (T::Zed, T::Zed) => true, (T::Unit(a0, a1), T::Unit(b0, b1)) => (a0 == b0), _ => false } }
+pub struct T(#[educe(PartialEq(method("m_eq")))] A<0>, #[educe(PartialEq(ignore))] A<0>);
+pub fn values() -> Vec<T> { vec![T(A(0), A(0)), T(A(0), A(1)), T(A(0), A(7)), T(A(1), A(0)), T(A(1), A(1)), T(A(1), A(7)), T(A(7), A(0)), T(A(7), A(1)), T(A(7), A(7))] }
+pub fn show(x: &T) -> String { #[allow(unused_variables)] match x { T(p0, p1) => format!("T({},{})", sv(p0), sv(p1)) } }
+pub fn o_eq(a: &T, b: &T) -> bool { match (a, b) { (T(a0, a1), T(b0, b1)) => m_eq(a0, b0) } }
 pub fn run(out: &mut Out) { let vs = values(); for a in &vs { for b in &vs { let e = o_eq(a, b); out.check((a == b) == e, "eq_26", "eq", || format!("{} == {} expected {}", show(a), show(b), e)); out.check((a != b) == !e, "eq_26", "ne", || format!("{} != {} expected {}", show(a), show(b), !e)); } } }
